@@ -44,12 +44,17 @@ set_option linter.unusedVariables false
 
 /-! ## C09 (b), (c) for callbacks that are pure relative to the entry state -/
 
-/-- `C09.minmaxBody_spec` for `PureCallbackAt s` -/
-theorem minmaxBody_specAt (isMin : Bool) {re : Reenter} {φ : Val → Val → Val} {s s' : VmState}
+/-- the contract relative to the entry state does not look at the guards of the entry state -/
+theorem pureCallbackAt_withGuards {s : VmState} {re : Reenter} {f : Val} {φ : Val → Val → Val}
+    (h : PureCallbackAt s re f φ) (g : List Nat) : PureCallbackAt { s with guards := g } re f φ :=
+  ⟨fun t r t' hc hl hh ho hfr hgl hok => h.ok t r t' hc hl hh ho hfr hgl hok⟩
+
+/-- `C09.minmaxCore_spec` for `PureCallbackAt s` -/
+theorem minmaxCore_specAt (isMin : Bool) {re : Reenter} {φ : Val → Val → Val} {s s' : VmState}
     {r keyFn : Val} {a cap : Nat} {e₀ : Val × Val} {rest : List (Val × Val)}
     (hf : FreshNext s.heap) (hkf : s.stack.peekLast 0 = keyFn) (hit : s.stack.peekLast 1 = .obj a)
     (ha : s.heap.get a = some (.table cap (e₀ :: rest))) (hcb : PureCallbackAt s re keyFn φ)
-    (hok : (minmaxBody isMin re).go s = (.ok r, s')) :
+    (hok : (minmaxCore isMin re).go s = (.ok r, s')) :
     let i := argBest (better isMin s.heap) (keysOf φ (e₀ :: rest))
     let e := (e₀ :: rest).getD i (.nil, .nil)
     i < (e₀ :: rest).length ∧ r = .obj s.heap.next ∧ s.heap.get s.heap.next = none ∧
@@ -60,7 +65,7 @@ theorem minmaxBody_specAt (isMin : Bool) {re : Reenter} {φ : Val → Val → Va
     s'.heap.get a = some (.table cap (e₀ :: rest)) ∧ Grown s s' ∧ s'.guards = s.guards := by
   intro i e
   obtain ⟨k0, v0⟩ := e₀
-  unfold minmaxBody at hok
+  unfold minmaxCore at hok
   rw [go_bind_ok (go_get s), go_bind_ok (go_peek 0 s), go_bind_ok (go_peek 1 s), hit, hkf] at hok
   simp only [isTable_of_get ha] at hok
   rw [go_callKV_bind] at hok
@@ -125,6 +130,28 @@ theorem minmaxBody_specAt (isMin : Bool) {re : Reenter} {φ : Val → Val → Va
       refine ⟨_, hstep.1.symm, ?_, hstep.2 ▸ hG', hstep.2 ▸ hh, hstep.2 ▸ (hgu'.trans hgu)⟩
       rw [htake, scan_snoc, ← hst, if_neg hb]
 
+/-- `C09.minmaxBody_spec` for `PureCallbackAt s` -/
+theorem minmaxBody_specAt (isMin : Bool) {re : Reenter} {φ : Val → Val → Val} {s s' : VmState}
+    {r keyFn : Val} {a cap : Nat} {e₀ : Val × Val} {rest : List (Val × Val)}
+    (hf : FreshNext s.heap) (hkf : s.stack.peekLast 0 = keyFn) (hit : s.stack.peekLast 1 = .obj a)
+    (ha : s.heap.get a = some (.table cap (e₀ :: rest))) (hcb : PureCallbackAt s re keyFn φ)
+    (hok : (minmaxBody isMin re).go s = (.ok r, s')) :
+    let i := argBest (better isMin s.heap) (keysOf φ (e₀ :: rest))
+    let e := (e₀ :: rest).getD i (.nil, .nil)
+    i < (e₀ :: rest).length ∧ r = .obj s.heap.next ∧ s.heap.get s.heap.next = none ∧
+    (∃ cap', s'.heap.get s.heap.next =
+      some (.table cap' [(.obj (s.heap.next + 1), e.1), (.obj (s.heap.next + 2), e.2)])) ∧
+    s'.heap.get (s.heap.next + 1) = some (.str "key".toUTF8.toList) ∧
+    s'.heap.get (s.heap.next + 2) = some (.str "value".toUTF8.toList) ∧
+    s'.heap.get a = some (.table cap (e₀ :: rest)) ∧ Grown s s' ∧ s'.guards = s.guards := by
+  intro i e
+  obtain ⟨s₁, hcore, rfl⟩ := minmaxBody_ok hit ha hok
+  obtain ⟨h1, h2, h3, h4, h5, h6, h7, hG, hgu⟩ :=
+    minmaxCore_specAt isMin (s := { s with guards := rowGuards (e₀ :: rest) ++ s.guards }) hf hkf hit ha
+      (pureCallbackAt_withGuards hcb _) hcore
+  obtain ⟨hG', hgu'⟩ := Grown.unrow hf hG hgu
+  exact ⟨h1, h2, h3, h4, h5, h6, h7, hG', hgu'⟩
+
 /-- `C09.min_spec` for `PureCallbackAt s` -/
 theorem min_spec_at (re : Reenter) {φ : Val → Val → Val} {s s' : VmState} {r keyFn : Val}
     {a cap : Nat} {e₀ : Val × Val} {rest : List (Val × Val)}
@@ -161,18 +188,17 @@ theorem max_spec_at (re : Reenter) {φ : Val → Val → Val} {s s' : VmState} {
   rw [hget] at hrow
   exact ⟨_, e, he, ⟨hr, hnew, hrow, hks, hvs, hG, hgu⟩, hin, hlater, fun h => hswo h.flip⟩
 
-/-- `C09.sort_spec` for `PureCallbackAt s` -/
-theorem sort_spec_at (re : Reenter) {φ : Val → Val → Val} {s s' : VmState} {r keyFn : Val}
+/-- `C09.sortCore_spec` for `PureCallbackAt s` -/
+theorem sortCore_spec_at (re : Reenter) {φ : Val → Val → Val} {s s' : VmState} {r keyFn : Val}
     {a cap : Nat} {es : List (Val × Val)}
     (hf : FreshNext s.heap) (hkf : s.stack.peekLast 0 = keyFn) (hit : s.stack.peekLast 1 = .obj a)
     (ha : s.heap.get a = some (.table cap es)) (hcb : PureCallbackAt s re keyFn φ)
     (hflat : ∀ e ∈ es, FlatKey s.heap e.1) (hdist : (es.map (fun e => ownD s.heap e.1)).Nodup)
-    (hok : (callNativeBody re "__sort").go s = (.ok r, s')) :
+    (hok : (sortCore re).go s = (.ok r, s')) :
     r = .obj s.heap.next ∧ s.heap.get s.heap.next = none ∧
     (∃ cap', s'.heap.get s.heap.next = some (.table cap' (sortedEntries φ s.heap es))) ∧
     s'.heap.get a = some (.table cap es) ∧ Grown s s' ∧ s'.guards = s.guards := by
-  rw [callNativeBody_sort] at hok
-  unfold sortBody at hok
+  unfold sortCore at hok
   rw [go_bind_ok (go_get s), go_bind_ok (go_peek 0 s), go_bind_ok (go_peek 1 s), hit, hkf] at hok
   simp only [isTable_of_get ha] at hok
   obtain ⟨kd, t1, hloop1, hok⟩ := ok_bind hok
@@ -208,6 +234,24 @@ theorem sort_spec_at (re : Reenter) {φ : Val → Val → Val} {s s' : VmState} 
     (by rw [hheap1]) hok
   rw [hheap1] at hr hnone hout
   exact ⟨hr, hnone, hout, hin, hG, hgu⟩
+
+/-- `C09.sort_spec` for `PureCallbackAt s` -/
+theorem sort_spec_at (re : Reenter) {φ : Val → Val → Val} {s s' : VmState} {r keyFn : Val}
+    {a cap : Nat} {es : List (Val × Val)}
+    (hf : FreshNext s.heap) (hkf : s.stack.peekLast 0 = keyFn) (hit : s.stack.peekLast 1 = .obj a)
+    (ha : s.heap.get a = some (.table cap es)) (hcb : PureCallbackAt s re keyFn φ)
+    (hflat : ∀ e ∈ es, FlatKey s.heap e.1) (hdist : (es.map (fun e => ownD s.heap e.1)).Nodup)
+    (hok : (callNativeBody re "__sort").go s = (.ok r, s')) :
+    r = .obj s.heap.next ∧ s.heap.get s.heap.next = none ∧
+    (∃ cap', s'.heap.get s.heap.next = some (.table cap' (sortedEntries φ s.heap es))) ∧
+    s'.heap.get a = some (.table cap es) ∧ Grown s s' ∧ s'.guards = s.guards := by
+  rw [callNativeBody_sort] at hok
+  obtain ⟨s₁, hcore, rfl⟩ := sortBody_ok hit ha hok
+  obtain ⟨h1, h2, h3, h4, hG, hgu⟩ :=
+    sortCore_spec_at re (s := { s with guards := rowGuards es ++ s.guards }) hf hkf hit ha
+      (pureCallbackAt_withGuards hcb _) hflat hdist hcore
+  obtain ⟨hG', hgu'⟩ := Grown.unrow hf hG hgu
+  exact ⟨h1, h2, h3, h4, hG', hgu'⟩
 
 /-- the specifications of C09 are instances: a callback that is pure everywhere is pure relative
     to every entry state (`pureCallbackAt_of_pure`) -/
